@@ -9,7 +9,7 @@ def run(run):
                 'per context all subsets (<=6 members) or a sample; arguments shuffled with duplicates; '
                 'a case = (context, side, subset); non-trivial = context not 1x1 and not constant')
     d = run.driver
-    for tab, pc in lat.contexts(run, exh_quick=8, rand_quick=300, wide_quick=60, exh_thorough=12):
+    for tab, pc in lat.contexts(run, exh_quick=9, rand_quick=300, wide_quick=60, exh_thorough=13):
         reqs, cases = [], []
         ctx = pc.ctx
         with guard(run, 'objects/properties/bools', [pc.line]):
